@@ -25,6 +25,7 @@ type Family struct {
 	Attrs     map[string][]Attr `json:"attrs"`     // attribute alphabet per element (MC_Attrs families)
 	Calls     []Call            `json:"calls"`     // builder call alphabet (MC_Policy family)
 	CtorPairs [][]Call          `json:"ctorpairs"` // constructor pairs (MC_Policy family)
+	Docs      []ioDoc           `json:"docs"`      // documents (MC_IO family)
 }
 
 func LoadFamily(path string) (*Family, error) {
@@ -381,6 +382,14 @@ func cmdFamFacts(args []string) int {
 		}
 		for el, as := range fam.Attrs {
 			f.AddTag(ap, Dec(el), decAttrs(as))
+		}
+		for _, d := range fam.Docs {
+			for _, t := range d.Toks {
+				if dt := DecTok(t); isTag(dt) {
+					f.AddTag(ap, dt.N, dt.A)
+					f.AddAfter(ap, dt.N, nil)
+				}
+			}
 		}
 	}
 	if err := os.WriteFile(args[1], JSON(f), 0o644); err != nil {
